@@ -58,7 +58,7 @@ pub fn load() -> Vec<CorpusFile> {
     out
 }
 
-const OWN: [(&str, &str, &str); 8] = [
+const OWN: [(&str, &str, &str); 9] = [
     ("own/lists.lua", "Lua51", include_str!("../corpus/lists.lua")),
     ("own/calls.lua", "Lua51", include_str!("../corpus/calls.lua")),
     ("own/strings.lua", "Lua51", include_str!("../corpus/strings.lua")),
@@ -67,4 +67,5 @@ const OWN: [(&str, &str, &str); 8] = [
     ("own/unicode.lua", "Lua51", include_str!("../corpus/unicode.lua")),
     ("own/misc.lua", "Lua51", include_str!("../corpus/misc.lua")),
     ("own/luau2.luau", "Luau", include_str!("../corpus/luau2.luau")),
+    ("own/crstrings.lua", "Lua52", include_str!("../corpus/crstrings.lua")),
 ];
